@@ -75,7 +75,7 @@ theorem C17_source_buffer_independent (oracle oracle' : Nat → Bytes) (prog : L
 the decoder's own cursor and output parameters; nothing stores through a value pointer handed to
 an encoder or into the input slice of a decoder (facts regenerated from the source) -/
 theorem C17_arguments_never_modified :
-    Gen.paramStores = Tie.expectedParamStores ∧ Gen.copyCalls = Tie.expectedCopyCalls :=
+    Tie.storesOK Gen.paramStores Gen.copyCalls = true :=
   Tie.stores_are_the_modelled_ones
 
 open Pico.GoTie.DT Pico.GoTie.ET in
